@@ -65,6 +65,13 @@ func runC09Case(cc c09Case) (string, string) {
 		crCtx = c.CloseRead(bg)
 	case "writer-blocked":
 		go func() { writeRet <- c.Write(bg, websocket.MessageBinary, make([]byte, 1<<16)) }()
+	case "queued-writer":
+		// a streamed message is open (and stays open); a Write without any deadline queues behind it on the message lock
+		if w, err := c.Writer(bg, websocket.MessageText); err == nil {
+			w.Write([]byte("an open message"))
+		}
+		go func() { writeRet <- c.Write(context.Background(), websocket.MessageBinary, make([]byte, 100)) }()
+		time.Sleep(30 * time.Millisecond)
 	}
 	// peer behaviour
 	hdrOf := func(n uint64) []byte {
@@ -195,7 +202,7 @@ func runC09Case(cc c09Case) (string, string) {
 		case <-time.After(promptBound):
 			return "blocked-read-not-released", desc + ": Read still blocked after the connection was closed"
 		}
-	case "writer-blocked", "writer-arrives", "pinger-arrives":
+	case "writer-blocked", "writer-arrives", "pinger-arrives", "queued-writer":
 		select {
 		case <-writeRet:
 		case <-time.After(promptBound):
@@ -276,6 +283,7 @@ func runC09(ctx *runCtx) {
 		for _, op := range []string{"close", "closenow"} {
 			cases = append(cases, c09Case{Client: client, Peer: "flood-never-reads", Local: "reader-blocked", Op: op},
 				c09Case{Client: client, Peer: "flood-never-reads", Local: "closeread", Op: op},
+				c09Case{Client: client, Peer: "silent", Local: "queued-writer", Op: op},
 				c09Case{Client: client, Peer: "silent", Local: "pinger-arrives", Op: op},
 				c09Case{Client: client, Peer: "stall-payload", K: 100, Local: "pinger-arrives", Op: op})
 		}
